@@ -17,7 +17,8 @@ RULE = ('shapes: every (m,n) up to the tier bound (all parity pairs, square and 
         'larger non-square ones; objects/PSFs random real (uniform, signed), impulses at every position of the small shapes, '
         'non-negative PSFs (random, gaussian, impulse, constant); transfer-function lists of length 0..4 given as real / '
         'complex arrays and as callables of fx, fy, fr, ft (jitter, smear, pixel, OLPF and asymmetric test functions), in '
-        'the shifted and the unshifted convention; a case is non-trivial unless the array has a single sample; '
+        'the shifted and the unshifted convention, on internally built and on caller-supplied (1-D / 2-D, with / without fr, ft) '
+        'frequency grids, alone and mixed with pre-evaluated arrays; a case is non-trivial unless the array has a single sample; '
         'distinct = distinct (item, input description) tuples')
 ASSUMPTIONS = ['scipy.fft.fft2/ifft2 compute the DFT sums (contract = hypothesis of the theorems, proved from primitive roots)',
                'fftshift/ifftshift are the rotations by +-(n//2) (checked against the model index maps every run)',
@@ -271,9 +272,52 @@ def pred_mtf(inp):
     return True, 'ok'
 
 
+def _supplied(shape, dx, shift, grid, polar):
+    """caller-supplied frequency grids in the given convention: 1-D vectors or 2-D meshgrids (+ fr, ft)"""
+    m, n = shape
+    fy = np.fft.fftfreq(m, dx)
+    fx = np.fft.fftfreq(n, dx)
+    if shift:
+        fy, fx = np.fft.fftshift(fy), np.fft.fftshift(fx)
+    kw = {}
+    if grid == '2d':
+        fxx, fyy = np.meshgrid(fx, fy)
+        kw['fx'], kw['fy'] = fxx, fyy
+    else:
+        kw['fx'], kw['fy'] = fx, fy
+    if polar:
+        fxx, fyy = np.meshgrid(fx, fy)
+        kw['fr'], kw['ft'] = np.hypot(fxx, fyy), np.arctan2(fyy, fxx)
+    return kw
+
+
+def pred_tf_callable_grids(inp):
+    """callables evaluated on CALLER-SUPPLIED grids (fx, fy, optionally fr, ft; 1-D or 2-D) in the convention
+    of the call = the arrays they evaluate to on those grids; both conventions give the same image"""
+    cv = _impl()[0]
+    o = _arr(inp['o'])
+    dx = inp['dx']
+    calls = inp['calls']
+    res = {}
+    for shift in (True, False):
+        kw = _supplied(o.shape, dx, shift, inp.get('grid', '1d'), inp.get('polar', False))
+        arrs = [_eval_callable(c[0], c[1], c[2], o.shape, dx, shift) for c in calls]
+        exp = cv.apply_transfer_functions(o, dx, arrs, shift=shift)
+        fs = [_callable(*c) for c in calls]
+        if inp.get('mixed') and len(fs) > 1:
+            fs[-1] = arrs[-1]                   # callable(s) followed by a pre-evaluated array
+        got = cv.apply_transfer_functions(o, None, fs, shift=shift, **kw)
+        if not _close(got, exp):
+            return False, (f'callables {[c[0] for c in calls]} on caller-supplied {inp.get("grid", "1d")} grids'
+                           f'{" (+fr, ft)" if inp.get("polar") else ""} with shift={shift} differ from the arrays they evaluate to '
+                           f'on those grids: {_err(got, exp)}')
+        res[shift] = got
+    return _close(res[True], res[False]), f'supplied grids: shift=True vs shift=False image: {_err(res[True], res[False])}'
+
+
 PREDS = {'conv_delta': pred_conv_delta, 'conv_comm': pred_conv_comm, 'conv_linear': pred_conv_linear,
          'conv_sum': pred_conv_sum, 'conv_direct': pred_conv_direct, 'tf_ones': pred_tf_ones, 'tf_list': pred_tf_list,
-         'tf_conventions': pred_tf_conventions, 'tf_callable': pred_tf_callable, 'tf_psf': pred_tf_psf, 'mtf': pred_mtf}
+         'tf_conventions': pred_tf_conventions, 'tf_callable': pred_tf_callable, 'tf_callable_grids': pred_tf_callable_grids, 'tf_psf': pred_tf_psf, 'mtf': pred_mtf}
 
 
 def _run_pred(name, inp):
@@ -530,10 +574,28 @@ def correspondence(ctx):
                     if not _close(got, model):
                         ctx.disagree('tf_callables', d2, _err(got, model),
                                      'model: callables evaluated on the frequency grid of the convention')
+                    # the same callables on caller-supplied grids of that convention (1-D / 2-D, with / without fr, ft)
+                    gk = ('1d', '2d')[(shape[0] + shape[1] + int(shift)) % 2]
+                    pol = (shape[0] * shape[1]) % 3 == 0
+                    d3 = dict(d2, grid=gk, polar=pol)
+                    ctx.case('tf_callables_supplied', d3, nontrivial=nt, tag=f'shift{int(shift)}/{gk}{"/polar" if pol else ""}')
+                    try:
+                        got2 = cv.apply_transfer_functions(o, None, [_callable(*c) for c in calls], shift=shift,
+                                                           **_supplied(shape, dx, shift, gk, pol))
+                    except Exception as ex:
+                        ctx.disagree('tf_callables_supplied', d3, f'raised {type(ex).__name__}: {ex}', 'value')
+                        return
+                    if not _close(got2, model):
+                        ctx.disagree('tf_callables_supplied', d3, _err(got2, model),
+                                     'model: callables evaluated on the (caller-supplied) frequency grid of the convention')
                 ask(f'tfcall {int(shift)} {m} {n} {C.f2w(dx)} {k} ' + ' '.join(f'{c[0]} {C.f2w(c[1])} {C.f2w(c[2])}' for c in calls)
                     + ' ' + _fl(o), chk)
             _check(ctx, 'tf_callable', {'o': _l(o), 'dx': dx, 'calls': [list(c) for c in calls]}, desc, nt,
                    '+'.join(c[0] for c in calls))
+            for gk, pol, mixed in (('1d', False, False), ('2d', False, True), ('2d', True, False), ('1d', True, True))[rep % 2::2]:
+                _check(ctx, 'tf_callable_grids', {'o': _l(o), 'dx': dx, 'calls': [list(c) for c in calls], 'grid': gk,
+                                                  'polar': pol, 'mixed': mixed},
+                       dict(desc, grid=gk, polar=pol, mixed=mixed), nt, f'{gk}{"/polar" if pol else ""}{"/mixed" if mixed else ""}')
 
     # ---------------- MTF / PTF / OTF of non-negative PSFs
     for shape in small + big:
@@ -625,6 +687,10 @@ def search(ctx, hints):
         tests.append(('tf_conventions', {'o': _l(o), 'tfs': [_cl(t) for t in _tf_lists(rng, shape, 2)]}))
         for c in (('jitter', 0.7, 0.0), ('smear', 1.3, 0.0), ('pixel', 0.9, 1.1), ('fx', 0.5, 0.5), ('fy', 0.5, -0.5), ('ft', 0.3, 0.2)):
             tests.append(('tf_callable', {'o': _l(o), 'dx': 1.0, 'calls': [list(c)]}))
+            for gk, pol in (('1d', False), ('2d', True)):
+                tests.append(('tf_callable_grids', {'o': _l(o), 'dx': 1.0, 'calls': [list(c)], 'grid': gk, 'polar': pol}))
+        tests.append(('tf_callable_grids', {'o': _l(o), 'dx': 0.5, 'calls': [['jitter', 0.4, 0.0], ['pixel', 0.45, 0.55]],
+                                            'grid': '2d', 'polar': False, 'mixed': True}))
         for kind, p in _psfs(rng, shape):
             tests.append(('mtf', {'psf': _l(p), 'dx': 1.0}))
         for name, inp in tests:
@@ -641,7 +707,7 @@ def replay(inp):
         print('no replay routine for item', name)
         return False
     shape = np.asarray(inp.get('o', inp.get('psf'))).shape
-    print(f'replaying {name} on shape {shape}: ' + ', '.join(f'{k}={v}' for k, v in inp.items() if k in ('pos', 'shift', 'dx', 'calls', 'a', 'b')))
+    print(f'replaying {name} on shape {shape}: ' + ', '.join(f'{k}={v}' for k, v in inp.items() if k in ('pos', 'shift', 'dx', 'calls', 'a', 'b', 'grid', 'polar', 'mixed')))
     ok, detail = _run_pred(name, inp)
     print(detail)
     return not ok
